@@ -189,6 +189,13 @@ class View:
                     and not isinstance(l.value.v, bool) or (l.kind == "assign" and key(l.target) == tk and isinstance(l.value, Const)
                                                            and isinstance(l.value.v, bool) and int(l.value.v) == value):
                 r.append(l)
+            elif value == 1 and l.kind == "assign" and key(l.target) == tk and isinstance(l.value, (Op, Obj, Sym)) and _one_bit(l.target) and not l.quants:
+                # value form `x.eq(c)` of a 1-bit signal == guard form `If(c, x.eq(1))`
+                import copy as _c
+                m = _c.copy(l)
+                m.guards = tuple(l.guards) + tuple(conj(l.value))
+                m.value = Const(1)
+                r.append(m)
         return r
 
 
@@ -499,6 +506,23 @@ def twidth(t, depth=0):
         w = twidth(a[0], depth + 1)
         return None if w is None else [Op("*", (x, a[1])) for x in w]
     return None
+
+
+def guard_form(view, leaf):
+    """`x.eq(c)` and `If(c, x.eq(1))` are the same statement for a 1-bit signal with default 0: returns (guard literals incl. the value's conjuncts, True) when
+    the leaf assigns a non-constant value to a 1-bit signal, else (its guard literals, False)."""
+    lits = view.guard_lits(leaf, False)
+    if leaf.kind == "assign" and isinstance(leaf.value, (Op, Obj, Sym)) and _one_bit(leaf.target):
+        return lits + list(conj(leaf.value)), True
+    return lits, False
+
+
+def _one_bit(t):
+    if isinstance(t, Obj) and t.cls == "Signal":
+        w = twidth(t)
+        return w is not None and len(w) == 1 and isinstance(w[0], Const) and w[0].v == 1
+    k = key(t) if isinstance(t, (Sym, Op)) else ""
+    return isinstance(t, (Sym, Op)) and k.rsplit(".", 1)[-1] in ("valid", "ready", "last", "first") and "[" not in k.rsplit(".", 1)[-1]
 
 
 def _has_signal(t):
